@@ -144,6 +144,68 @@ theorem twoPole_all (z1 z2 l1 l2 c1 c2 : K) (h1 : z1 * z1 + l1 * z1 + 1 = 0)
     rw [t3, t4]
     exact twoPole_interior z1 z2 l1 l2 c1 c2 h1 h2 n s i (by omega) (by omega)
 
+/-- the two-pole five-tap equations on lines of 2 and 3 samples (every knot outside folds back, some of them twice) -/
+theorem twoPole_all_small (z1 z2 l1 l2 c1 c2 : K) (h1 : z1 * z1 + l1 * z1 + 1 = 0)
+    (h2 : z2 * z2 + l2 * z2 + 1 = 0) (hz1 : z1 * z1 - 1 ≠ 0) (hz2 : z2 * z2 - 1 ≠ 0)
+    (n : Nat) (hn : n = 2 ∨ n = 3) (s : Nat → K) (hi1 : MirrorInit z1 n s c1)
+    (hi2 : MirrorInit z2 n (onePole z1 c1 n s) c2) (j : Int) (h0 : 0 ≤ j) (hj : j < n) :
+    onePole z2 c2 n (onePole z1 c1 n s) (edgeFold n (j - 2)).toNat
+      + (l1 + l2) * onePole z2 c2 n (onePole z1 c1 n s) (edgeFold n (j - 1)).toNat
+      + (2 + l1 * l2) * onePole z2 c2 n (onePole z1 c1 n s) j.toNat
+      + (l1 + l2) * onePole z2 c2 n (onePole z1 c1 n s) (edgeFold n (j + 1)).toNat
+      + onePole z2 c2 n (onePole z1 c1 n s) (edgeFold n (j + 2)).toNat = s j.toNat := by
+  have t0 : (0 : Int).toNat = 0 := rfl
+  have t1 : (1 : Int).toNat = 1 := rfl
+  have t2 : (2 : Int).toNat = 2 := rfl
+  rcases hn with rfl | rfl
+  · have A := fun j h0 hj => onePole_all z1 l1 c1 h1 hz1 2 (by omega) s hi1 j h0 hj
+    have B := fun j h0 hj => onePole_all z2 l2 c2 h2 hz2 2 (by omega) (onePole z1 c1 2 s) hi2 j h0 hj
+    have f_m2 : edgeFold 2 (-2) = 0 := by decide
+    have f_m1 : edgeFold 2 (-1) = 1 := by decide
+    have f_0 : edgeFold 2 0 = 0 := by decide
+    have f_1 : edgeFold 2 1 = 1 := by decide
+    have f_2 : edgeFold 2 2 = 0 := by decide
+    have f_3 : edgeFold 2 3 = 1 := by decide
+    have hj' : j = 0 ∨ j = 1 := by omega
+    rcases hj' with rfl | rfl
+    · have a0 := A 0 (by omega) (by decide)
+      have b0 := B 0 (by omega) (by decide)
+      have b1 := B 1 (by omega) (by decide)
+      norm_num [f_m2, f_m1, f_0, f_1, f_2, f_3, t0, t1, t2] at a0 b0 b1 ⊢
+      linear_combination a0 + l1 * b0 + 2 * b1
+    · have a1 := A 1 (by omega) (by decide)
+      have b0 := B 0 (by omega) (by decide)
+      have b1 := B 1 (by omega) (by decide)
+      norm_num [f_m2, f_m1, f_0, f_1, f_2, f_3, t0, t1, t2] at a1 b0 b1 ⊢
+      linear_combination a1 + l1 * b1 + 2 * b0
+  · have A := fun j h0 hj => onePole_all z1 l1 c1 h1 hz1 3 (by omega) s hi1 j h0 hj
+    have B := fun j h0 hj => onePole_all z2 l2 c2 h2 hz2 3 (by omega) (onePole z1 c1 3 s) hi2 j h0 hj
+    have f_m2 : edgeFold 3 (-2) = 2 := by decide
+    have f_m1 : edgeFold 3 (-1) = 1 := by decide
+    have f_0 : edgeFold 3 0 = 0 := by decide
+    have f_1 : edgeFold 3 1 = 1 := by decide
+    have f_2 : edgeFold 3 2 = 2 := by decide
+    have f_3 : edgeFold 3 3 = 1 := by decide
+    have f_4 : edgeFold 3 4 = 0 := by decide
+    have hj' : j = 0 ∨ j = 1 ∨ j = 2 := by omega
+    rcases hj' with rfl | rfl | rfl
+    · have a0 := A 0 (by omega) (by decide)
+      have b0 := B 0 (by omega) (by decide)
+      have b1 := B 1 (by omega) (by decide)
+      norm_num [f_m2, f_m1, f_0, f_1, f_2, f_3, f_4, t0, t1, t2] at a0 b0 b1 ⊢
+      linear_combination a0 + l1 * b0 + 2 * b1
+    · have a1 := A 1 (by omega) (by decide)
+      have b0 := B 0 (by omega) (by decide)
+      have b1 := B 1 (by omega) (by decide)
+      have b2 := B 2 (by omega) (by decide)
+      norm_num [f_m2, f_m1, f_0, f_1, f_2, f_3, f_4, t0, t1, t2] at a1 b0 b1 b2 ⊢
+      linear_combination a1 + b0 + l1 * b1 + b2
+    · have a2 := A 2 (by omega) (by decide)
+      have b1 := B 1 (by omega) (by decide)
+      have b2 := B 2 (by omega) (by decide)
+      norm_num [f_m2, f_m1, f_0, f_1, f_2, f_3, f_4, t0, t1, t2] at a2 b1 b2 ⊢
+      linear_combination a2 + l1 * b2 + 2 * b1
+
 /-! ### the per-axis combination at integer coordinates, orders 4 and 5 -/
 
 theorem axisComb4 {fl : K → Int} (h : IsFloor fl) (len : Nat) (c : Int → K) (j : Int) :
@@ -181,7 +243,7 @@ theorem axisComb5 {fl : K → Int} (h : IsFloor fl) (len : Nat) (c : Int → K) 
     per-axis weights `(1, λ₁+λ₂, 2+λ₁λ₂, λ₁+λ₂, 1)/w` -/
 theorem line_inverts2 (z1 z2 l1 l2 w : K) (h1 : z1 * z1 + l1 * z1 + 1 = 0) (h2 : z2 * z2 + l2 * z2 + 1 = 0)
     (hz1 : z1 * z1 - 1 ≠ 0) (hz2 : z2 * z2 - 1 ≠ 0) (hw : w ≠ 0)
-    (ini : K → Nat → (Nat → K) → K) (len : Nat) (hlen : 4 ≤ len)
+    (ini : K → Nat → (Nat → K) → K) (len : Nat) (hlen : 2 ≤ len)
     (hini : ∀ z, z = z1 ∨ z = z2 → ∀ s : Nat → K, MirrorInit z len s (ini z len s)) (s : Nat → K) (j : Int)
     (h0 : 0 ≤ j) (hj : j < (len : Int)) :
     let c := fun k : Int => lineFilterL w [z1, z2] ini len s k.toNat
@@ -191,8 +253,12 @@ theorem line_inverts2 (z1 z2 l1 l2 w : K) (h1 : z1 * z1 + l1 * z1 + 1 = 0) (h2 :
   have hl : ¬ len ≤ 1 := by omega
   simp only [c, lineFilterL, hl, if_false, List.foldl_cons, List.foldl_nil]
   rw [edgeFold_inside len j h0 hj]
-  have := twoPole_all z1 z2 l1 l2 _ _ h1 h2 hz1 hz2 len hlen (fun i => s i * w)
-    (hini z1 (Or.inl rfl) _) (hini z2 (Or.inr rfl) _) j h0 hj
-  linear_combination this
+  by_cases h4 : 4 ≤ len
+  · have := twoPole_all z1 z2 l1 l2 _ _ h1 h2 hz1 hz2 len h4 (fun i => s i * w)
+      (hini z1 (Or.inl rfl) _) (hini z2 (Or.inr rfl) _) j h0 hj
+    linear_combination this
+  · have := twoPole_all_small z1 z2 l1 l2 _ _ h1 h2 hz1 hz2 len (by omega) (fun i => s i * w)
+      (hini z1 (Or.inl rfl) _) (hini z2 (Or.inr rfl) _) j h0 hj
+    linear_combination this
 
 end Mahotas.C18
